@@ -6,7 +6,7 @@ import pyPRISM
 PROP = 'C08'
 BATCH = 2
 TIMEOUT = {'quick': 900, 'thorough': 2400}
-BOUNDS = dict(N='1..6 grid points (quick 1..4, 6)', domains='built from dr, from dk, and after one re-assignment of dr, dk or length', f='arbitrary real arrays', spacing='any positive dr / dk')
+BOUNDS = dict(N='1..6 grid points with exact sine values (quick 1..4, 6); N=7 (not 5-smooth) with Ackermannised sines whose arguments are merged when provably equal', domains='built from dr, from dk, and after one re-assignment of dr, dk or length', f='arbitrary real arrays', spacing='any positive dr / dk')
 OUTSIDE = ['the convergence statement itself (error <= const*dr at fixed k or r, decreasing under refinement, k->0 -> volume integral) for the analytic families: analysis over transcendental integrands on refinement families is not encodable; what is decided is that each transform IS the Riemann sum of its continuous integral with the right prefactor, from which O(dr) consistency is the textbook step',
            'N > 6', 'rounding error']
 ASSUMPTIONS = ['oracle (written from the continuous formulas): F(k_j) = 4*pi*dr*Sum_n r_n f_n sin(k_j(r_n-dr/2))/k_j ; f(r_i) = dk/(2*pi^2 r_i) * Sum\'_n k_n F_n sin(k_n(r_i-dr/2)) (last term halved), on the harness\'s own grid r_n=(n+1)dr, k_j=(j+1)pi/(N dr)',
@@ -23,6 +23,9 @@ def instances(tier):
                 continue
             out.append(dict(name='riemann[N%d,%s]' % (N, how), fn='riemann', args=dict(N=N, how=how), sin_exact=[N, [2 * N]],
                             query_timeout_ms=240000, timeout=1500))
+    for N in (7,):
+        for how in ('dr', 'dk'):
+            out.append(dict(name='riemann-uf[N%d,%s]' % (N, how), fn='riemann', args=dict(N=N, how=how), dst_mode='uf', sin_exact=[N, [2]], query_timeout_ms=240000, timeout=1500))
     return out
 
 
